@@ -177,6 +177,12 @@ class Observer:
         self.ii, self.pi = comp.in_index, comp.probe_index
         self.order = comp.in_names
         self.depth = cfg["depth"]
+        # inputs behind the registers (read-only register values, pins, event lines) are held at fixed NON-ZERO
+        # patterns, so that what such a register returns differs from what an unassigned address returns
+        self.const = {}
+        for k, (name, w) in enumerate(zip(comp.in_names, comp.in_widths)):
+            if name not in ("adr", "cyc", "stb", "we", "sel", "dat_w") and w:
+                self.const[name] = (0xA5C3 >> (k % 5)) & ((1 << w) - 1) or 1
         self.meta_err = None
         regs, self.reg_leaf = [], []
         self.mems = []
@@ -218,7 +224,7 @@ class Observer:
 
     # ---- letters -------------------------------------------------------------------------------------
     def mk(self, adr, cyc, stb, we, sel, dat_w):
-        d = dict(adr=adr, cyc=cyc, stb=stb, we=we, sel=sel, dat_w=dat_w)
+        d = dict(self.const, adr=adr, cyc=cyc, stb=stb, we=we, sel=sel, dat_w=dat_w)
         return tuple(d.get(n, 0) for n in self.order)
 
     def dat(self, adr, fl=0):
@@ -407,7 +413,7 @@ def configs(tier):
         add(dw, aw, [S(("sram", 8, True), name="ram"), S(("csr", cdec1), name="periph")])
         add(dw, aw, [S(("csr", cdec1)), S(("sram", 8, True))])
         # explicit addresses (multiples of the window size), descending insertion order
-        add(dw, aw, [S(("csr", cdec2, "io"), addr=64), S(("sram", 16, False), addr=16), S(("sram", 8, True), addr=0)])
+        add(dw, aw, [S(("csr", cdec2, "io"), addr=64), S(("sram", 16, False), addr=16, name="rom"), S(("sram", 8, True), addr=0, name="ram")])
         # bridge directly over one peripheral, align_to between adds, decoder alignment
         add(dw, aw, [S(("csr", br_a)), S(("sram", 4 if lanes <= 4 else 8, True), align_to=5), S(("csr", ev3, "ev"), name=None)], align=3)
         if not quick or dw in (8, 32):
@@ -417,7 +423,9 @@ def configs(tier):
             add(dw, aw, [S(("csr", gp)), S(("csr", br_c), name="c"), S(("sram", 8, True))])
     if not quick:
         add(32, 5, [S(("sram", 8, True), name="ram"), S(("csr", cdec1), name="periph")], all_sel=True)
-        add(16, 6, [S(("csr", cdec2, "io"), addr=64), S(("sram", 16, False), addr=16), S(("sram", 8, True), addr=0)], depth=3)
+        add(16, 6, [S(("csr", cdec2, "io"), addr=64), S(("sram", 16, False), addr=16, name="rom"), S(("sram", 8, True), addr=0, name="ram")], depth=4)
+        # two writable memories next to each other and a bridge in between (anonymous bridge window)
+        add(32, 6, [S(("sram", 16, True), name="a"), S(("csr", br_a)), S(("sram", 8, True), name="b", align_to=5)])
     for c in out:
         c.setdefault("depth", depth)
         if not quick and c["dw"] == 32:
@@ -426,7 +434,13 @@ def configs(tier):
 
 
 def run_config(cfg, tier, seed):
-    return explore_hw(build, Observer, cfg, tier, seed, max_states=600_000, max_seconds=150 if tier == "quick" else 1500)
+    res = explore_hw(build, Observer, cfg, tier, seed, max_states=2_500_000, max_seconds=900 if tier == "quick" else 5000)
+    if res.get("refused"):
+        # the grammar only produces hierarchies the toolkit is supposed to accept: a refusal means the
+        # grammar (or the toolkit's acceptance) changed, and nothing was explored for this hierarchy
+        from ..common import ToolFailure
+        raise ToolFailure(f"hierarchy refused by the library: {res.get('refusal')}")
+    return res
 
 
 def replay(data):
@@ -437,6 +451,8 @@ def main(tier, seed):
     t0 = time.time()
     results = run_configs(run_config, configs(tier), tier, seed)
     cov = aggregate(results)
+    cov["exhaustive"] = False          # transaction depth is bounded: a prefix of the quiescent-state graph
+    cov["transaction_depth"] = sorted({c["depth"] for c in configs(tier)})
     cov["rule"] = ("hierarchies from the grammar in configs(); per hierarchy every root word address x read/write x select masks "
                    "(single lanes, all lanes, two mixed masks; thorough: all masks for one hierarchy) as whole Wishbone transfers, BFS over "
                    "quiescent states to transaction depth 2 (thorough: 3 for one hierarchy)")
@@ -445,7 +461,7 @@ def main(tier, seed):
 
 ASSUMPTIONS = [
     "Amaranth 0.5.10 front end, build_netlist and Simulator are the trusted base", "rst held at 0",
-    "write data are address-derived byte tokens; pin / event / read-only register inputs are held at 0",
+    "write data are address-derived byte tokens; pin / event / read-only register inputs are held at fixed non-zero patterns",
     "the initiator performs one transfer at a time, holds it until acknowledged or for ratio+6 cycles (horizon), then idles 3 cycles",
     "inside a Wishbone-to-CSR bridge's window the bridge acknowledges every transfer (C10 requires it): for holes there only "
     "'no leaf strobe, zero read data' is required; 'never acknowledged' applies to addresses no Wishbone window covers",
